@@ -303,6 +303,19 @@ def rule_gate_eval(chk, pc):
         chk.ob("C11.gate/model/%s" % name, ok, "result %s, chain %s, effects %s" % (want[0], want[1], want[2]) if ok else
                "directive case `%s` in chain %s (condition %s): result, chain, effects, macros = %s; the C rules require %s - a directive inside an unselected branch has an effect, or the chain takes a wrong turn"
                % (name, chain, cond, (got,), (want,)), where(pc), sample={"case": name})
+    # an #if left open inside an included file: the open level must survive the include (so that the end of the
+    # translation unit rejects it) or the include itself must be refused - it may not vanish with the included file
+    for chain in ([], [E]):
+        r = dm.run(w("include", '"a.h"'), [X], chain, True, included_leaves_open=True)
+        if len(r) == 2:
+            okk, got = r[0] != "aborts" and False, r
+        else:
+            got = (r[0], r[2])
+            okk = (r[0] == "Ok" and r[2] == chain + [E]) or r[0].startswith("Err(ConditionChain")
+        chk.ob("C11.gate/model/include/unterminated-in-included-file%s" % ("" if not chain else "/nested"), okk,
+               "an #if left open by an included file stays open in the including file (the end of the unit rejects it)" if okk else
+               "an included file that leaves an #if open: the include gives %s with the chain %s afterwards - the unterminated conditional vanishes with the included file and is never rejected"
+               % (got[0], got[1] if len(got) > 1 else "?"), where(pc))
     return True
 
 
